@@ -203,14 +203,12 @@ func identitySpans(ps []Piece) map[string]span {
 			}
 		case strings.HasPrefix(t, "`"):
 			// a raw block: every content line
-			kw := p.Line
-			if i > 0 && ps[i-1].Text == "raw" {
-				kw = ps[i-1].Line
-			}
+			// (the k-th line of the block was written k lines below the opening backtick,
+			// wherever the keyword 'raw' is)
 			for k, ln := range strings.Split(strings.Trim(t, "`"), "\n") {
 				f := strings.Fields(ln)
 				if len(f) >= 2 && f[0] == "@" {
-					m[f[1]] = span{kw + k, p.Line + k}
+					m[f[1]] = span{p.Line + k, p.Line + k}
 				}
 			}
 		default:
